@@ -56,7 +56,7 @@ def lake_build(targets, timeout=3600):
 
 
 AUDIT_TMPL = """import Lean
-import {module}
+{imports}
 open Lean
 #eval show CoreM Unit from do
   let env ← getEnv
@@ -73,10 +73,11 @@ open Lean
 """
 
 
-def audit(module, workdir):
-    """returns ({theorem: [axioms]}, raw output)"""
+def audit(module, workdir, more=()):
+    """returns ({theorem: [axioms]}, raw output); `more` = further modules stating theorems in the same namespace"""
     f = os.path.join(workdir, "Audit_%s.lean" % module.replace(".", "_"))
-    open(f, "w").write(AUDIT_TMPL.format(module=module))
+    imports = "\n".join("import " + m for m in [module] + list(more))
+    open(f, "w").write(AUDIT_TMPL.format(module=module, imports=imports))
     rc, out, _ = sh(["lake", "env", "lean", f], cwd=LEAN, timeout=900)
     res = {}
     for line in out.splitlines():
@@ -320,14 +321,17 @@ def run_check(prop, cfg, tier, seed, workdir):
     if not ok_drv:
         log(out_drv[-3000:])
         return finish_without_harness(prop, cfg, tier, seed, t0, "model driver does not build:\n" + out_drv[-1500:])
-    ok_thm, out_thm, dt2 = lake_build([module])
-    log("[%s] lake build %s: %s (%.1fs, driver %.1fs)" % (prop, module, "ok" if ok_thm else "FAILED", dt2, dt1))
+    more = cfg.get("more_modules", [])
+    ok_thm, out_thm, dt2 = lake_build([module] + more)
+    log("[%s] lake build %s: %s (%.1fs, driver %.1fs)" % (prop, " ".join([module] + more), "ok" if ok_thm else "FAILED", dt2, dt1))
     stated, _src = source_theorems(module)
+    for mm in more:
+        stated = stated + source_theorems(mm)[0]
     discharged = []
     axioms_used = set()
     audit_map = {}
     if ok_thm:
-        audit_map, araw = audit(module, workdir)
+        audit_map, araw = audit(module, workdir, more)
         for th in stated:
             full = module + "." + th
             ax = audit_map.get(full)
